@@ -91,6 +91,13 @@ func NewFileWriterWithName(filePath string, maxBlockSize int, swampName string) 
 // If swampName is set, creates a V3 file with the name stored after the header.
 // Otherwise creates a V3 file with NameLength=0.
 func (fw *FileWriter) createNewFile() error {
+	// The V3 header stores the name length in 16 bits; a longer name would be written in
+	// full behind a truncated length and the file could not be read back. Refuse before
+	// anything is created on disk.
+	if len(fw.swampName) > MaxSwampNameSize {
+		return ErrSwampNameTooLong
+	}
+
 	file, err := os.Create(fw.filePath)
 	if err != nil {
 		return err
@@ -229,6 +236,11 @@ func (fw *FileWriter) WriteEntry(entry Entry) error {
 		return ErrFileClosed
 	}
 
+	// Reject what cannot be encoded faithfully instead of storing it truncated
+	if err := entry.Validate(); err != nil {
+		return err
+	}
+
 	shouldFlush := fw.buffer.Add(entry)
 	if shouldFlush {
 		return fw.flushLocked()
@@ -244,6 +256,13 @@ func (fw *FileWriter) WriteEntries(entries []Entry) error {
 
 	if fw.closed {
 		return ErrFileClosed
+	}
+
+	// All or nothing: reject the batch before buffering any of it
+	for i := range entries {
+		if err := entries[i].Validate(); err != nil {
+			return err
+		}
 	}
 
 	for _, entry := range entries {
